@@ -269,6 +269,56 @@ def r02g(F):
 	out.append(Result('02.g', okm, ('ok:' if okm else 'shape:') + 'min-cltv-delta', 'get_cltv_expiry_delta = max(config, MIN_CLTV_EXPIRY_DELTA)', 1, where=F.where(g.name)))
 	return out
 
+def r02j(F):
+	"""forwards to an SCID without a channel (intercepts, phantom): the only admission check is local to can_forward_htlc_should_intercept"""
+	out = []
+	fn = CM + 'can_forward_htlc_should_intercept'
+	fu = F.func(fn)
+	oks = set(ok_return_blocks(fu))
+	cb = set(sites_call(fu, [CM + 'do_funded_channel_callback']))
+	if not oks or not cb:
+		return [Result('02.j', False, 'anchor:should_intercept', 'can_forward_htlc_should_intercept: Ok returns / do_funded_channel_callback not found (%d/%d)' % (len(oks), len(cb)), where=F.where(fn))]
+	some_edges = []
+	for d in call_decisions(fu, cb, 'option'):
+		some_edges += d.true_edges
+	if not some_edges:
+		out.append(Result('02.j', False, 'anchor:known-channel-switch', 'can_forward_htlc_should_intercept no longer matches on the result of do_funded_channel_callback', where=F.where(fn)))
+	gs = guards_in(F, fn, False)
+	amt = match_guards(gs, r'outgoing_amt_msat$', r'amount_msat$', 0)
+	if len(amt) != 1:
+		out.append(Result('02.j', False, 'guard:unknown-scid-amount', 'can_forward_htlc_should_intercept: the check `outgoing_amt_msat > amount_msat => FeeInsufficient` for HTLCs without an outgoing channel is missing (comparisons: %s)' % [g.text() for g in gs], len(gs), where=F.where(fn)))
+	else:
+		g, o = amt[0]
+		ok = (o[1], o[2]) in (('Gt', 0), ('Ge', 1))
+		out.append(Result('02.j', ok, ('ok:' if ok else 'shape:') + 'unknown-scid-amount', 'no-channel forwards are rejected iff `%s` (expected outgoing_amt_msat - amount_msat > 0): never offer more downstream than received' % cmp_str(o), 1, where=F.where(fn, g.line)))
+		# every Ok is behind the known-channel arm (which runs the channel's own admission check) or behind this comparison's false edge
+		out += P4_guarded(F, '02.j', fu, oks, g.decisions, False, 'outgoing amount <= incoming amount (or a known channel did the check)', key='unknown-scid-amount-guard', exempt_edges=some_edges)
+	cl = [g for g in gs if any('cltv_expiry' in v for v in g.nf[0]) or ('saturating_sub' in g.text() and 'cltv' in g.text())]
+	mind = F.const('lightning::ln::channelmanager::MIN_CLTV_EXPIRY_DELTA')
+	okc = False
+	for g in cl:
+		terms, op, K, used = g.nf
+		if any(c.endswith('MIN_CLTV_EXPIRY_DELTA') for c in used) and ((op, K) in (('Lt', mind), ('Le', mind - 1))):
+			okc = True
+			out += P4_guarded(F, '02.j', fu, oks, g.decisions, False, 'cltv delta >= MIN_CLTV_EXPIRY_DELTA (or a known channel did the check)', key='unknown-scid-cltv-guard', exempt_edges=some_edges)
+	out.append(Result('02.j', okc, ('ok:' if okc else 'guard:') + 'unknown-scid-cltv', 'no-channel forwards are rejected when cltv_expiry - outgoing_cltv_value < MIN_CLTV_EXPIRY_DELTA (%s)' % [g.text() for g in cl], len(cl), where=F.where(fn)))
+	# the known-channel arm: the callback runs can_forward_htlc_to_outgoing_channel and obeys it
+	okcb = False
+	for n in F.family(fn):
+		if n == fu.name:
+			continue
+		f2 = F.func(n)
+		c2 = sites_call(f2, [CM + 'can_forward_htlc_to_outgoing_channel'])
+		if c2:
+			rs = guarded_by_call(F, '02.j', n, set(ok_return_blocks(f2)), [CM + 'can_forward_htlc_to_outgoing_channel'], 'result', True)
+			out += rs
+			okcb = True
+	out.append(Result('02.j', okcb, ('ok:' if okcb else 'guard:') + 'known-channel-admission', 'for a known outgoing channel the callback runs can_forward_htlc_to_outgoing_channel (fee / CLTV admission, 02.g)', 1, where=F.where(fn)))
+	# and the generic CLTV window check guards every Ok
+	out += guarded_by_call(F, '02.j', fn, oks, ['onion_payment::check_incoming_htlc_cltv'], 'result', True)
+	# forward_intercepted_htlc has no amount check of its own: the expected amount it is given comes from the pending HTLC
+	return out
+
 RULES = [
 	('02.a', 'a preimage from update_fulfill_htlc always reaches claim_funds_internal (message, chain and startup paths exist)', r02a),
 	('02.b', 'an RAA blocker is registered for every previous hop before the claim is handed upstream', r02b),
@@ -277,4 +327,5 @@ RULES = [
 	('02.e', 'upstream failure only from the frozen callers; channel hands over fails only from revoke_and_ack under AwaitingRemovedRemoteRevoke', r02e),
 	('02.f', 'monitor: on-chain fail-back only from matured events, confirmed funding spend or the closed-channel near-expiry rule', r02f),
 	('02.g', 'forwarding admission: fee and CLTV-delta inequalities; advertised delta >= MIN_CLTV_EXPIRY_DELTA', r02g),
+	('02.j', 'forwards without an outgoing channel (intercepts / phantom): outgoing amount <= incoming amount and minimum CLTV delta', r02j),
 ]
